@@ -7,15 +7,15 @@ import sys
 tag, dby = sys.argv[1], sys.argv[2]
 d = '/verif/seeded/%s' % tag
 a = json.load(open(d + '/meta.agent.json'))
-wave2 = tag.endswith('b')
+wave2 = tag.endswith('b') or tag.endswith('c')
 m = {'property': tag[:3], 'summary': a.get('summary'), 'needs': a.get('needs'), 'demo_cmd': a.get('demo_cmd'),
      'expected_without': a.get('expected_without'), 'expected_with': a.get('expected_with'),
-     'origin': ('second wave: written by a sub-agent that saw only the property text (and one sentence naming the first-wave idea to avoid)'
+     'origin': (('second wave' if tag.endswith('b') else 'third wave') + ': written by a sub-agent that saw only the property text (and a few sentences naming the earlier ideas to avoid)'
                 if wave2 else 'written by a sub-agent that saw only the property text') + ' and a scratch worktree of /repo',
      'confirmed_by_me': {'builds': 'go build ./... ok', 'demo': 'fails with the change, passes without (tools/confirm_seed.sh)', 'suite': 'see /verif/seeded/README.md'},
      'detected_by': dby}
 if wave2:
-    m['wave'] = 2
+    m['wave'] = 2 if tag.endswith('b') else 3
 json.dump(m, open(d + '/meta.json', 'w'), indent=1)
 os.remove(d + '/meta.agent.json')
 print('wrote', d + '/meta.json')
